@@ -101,6 +101,10 @@ def setup(ctx):
     ctx.P = ctx.P_plain = SqParser()
     ctx.P_cache = SqParser(parse_cache=gram.ToggleCache())       # a parser whose host cache can refuse a store (see gram.earlier_call)
     ctx.fn_names = sorted(functions.FUNCTIONS)
+    new = [n for n in ctx.fn_names if n not in gram.PINNED_TABLE and n not in NAME_POOL]
+    NAME_POOL.extend(new * 3)
+    gram.use_table_names(ctx.fn_names)
+    ctx.count('table_entries_unknown_to_the_pinned_tree_added_to_the_identifier_pool', len(new))
 
 
 def cases(ctx):
